@@ -15,14 +15,13 @@ RULE = ("(operand norms are additionally scaled by 10^k, k in {-8,-4,0,3,6}, on 
         "(drawn uniformly; orders up to 6), tensors and operators. to_qtt on power-of-two modes (mode_size 2 and 4), "
         "square operators; qtt_to_tens round trip. eps: default or log-uniform in [1e-14,1e-1], raised to 10x the "
         "representation roundoff so the bound stays a bound in eps. Oracle: requested N/M exactly; "
-        "||dense(result)-reshape/permute(dense(x))|| <= 4 eps ||x|| + 64 d u prod||C_k||_F (for the tensor to_qtt path, "
-        "which truncates cores in isolation: 2 eps prod||C_k||_F per split core). Non-trivial: reshape that splits and "
+        "||dense(result)-reshape/permute(dense(x))|| <= 4 eps ||x|| + 64 d u prod||C_k||_F (to_qtt included). Non-trivial: reshape that splits and "
         "merges or touches a singleton source mode; permutation with >=2 inversions; QTT with >=2 cores split.")
 BUDGET = {"quick": 6000, "thorough": 400000}
 FLOORS = {"quick": {"op:reshape": 1200, "op:reshape_ttm": 300, "op:permute": 800, "op:to_qtt": 300, "op:qtt_roundtrip": 200,
                     "trailing_singleton_source": 200, "complex": 1500, "eps_active": 800, "eps_default": 800}}
 ASSUMPTIONS = ["dense reshape is row-major (torch.reshape); for operators rows and columns are regrouped independently",
-               "tensor to_qtt truncates each core separately, so its eps bound is scaled by prod||C_k||_F instead of ||x||"]
+               "to_qtt (tensor and operator) is held to the same 4 eps ||x|| bound as reshape"]
 
 SRC = (1, 2, 3, 4, 6, 8)
 
@@ -260,7 +259,9 @@ def execute(case):
                 tN.append(n)
         ck.label("cores_split:%d" % min(nsplit, 3))
         ck.nontrivial = nsplit >= 2
-        allow = 2 * eff * prodn * max(nsplit, 1) + 2 * round_allow * (1 + nsplit)
+        # the statement's bound: eps relative to ||x|| (the earlier version of this check scaled eps by prod ||C_k||_F here,
+        # which accommodated - and hid - the tensor branch of to_qtt truncating the raw cores one by one; see DESIGN 12)
+        allow = 4 * eff * nx + 2 * round_allow * (1 + nsplit)
         if op == "to_qtt":
             _check(ck, T, res, xd.reshape(tN), tN, None, dt, allow, nx)
             return ck.verdict()
